@@ -74,6 +74,11 @@ class FakeLoop:
         self.timers.append(h)
         return h
 
+    async def getaddrinfo(self, host, port, family=0, type=0, proto=0, flags=0):
+        """numeric host / numeric service lookup (AI_NUMERICHOST | AI_NUMERICSERV): the one
+        result is the given host text and port"""
+        return [(family, type, proto, "", (host, port))]
+
     def create_task(self, coro):
         t = Task(self, coro)
         self.tasks.append(t)
@@ -123,3 +128,14 @@ class Event:
 
     def is_set(self):
         return self.flag
+
+    async def wait(self):
+        """returns once the flag is set; while waiting other callbacks run (asyncio.sleep(0)
+        is the interference point of the sequential coroutine model)"""
+        import asyncio
+
+        if not self.flag:
+            await asyncio.sleep(0)
+            if not self.flag:
+                raise RuntimeError("Event.wait(): still not set (the harness must set it during the wait)")
+        return True
